@@ -43,7 +43,11 @@ type Spec struct {
 	Split       bool       `json:"split,omitempty"`                 // large program: its schedule tree is divided among all workers
 	ManagerRace bool       `json:"manager_race,omitempty"`          // two goroutines ask for the scope's task manager for the first time at once
 	Concurrent  bool       `json:"concurrent_submission,omitempty"` // every task is submitted from its own goroutine (first submissions race on the scope's manager)
-	Bound       int        `json:"bound"`
+	// SharedWait: the wait lists of all tasks are prefixes of ONE caller-owned array (the "every stage
+	// waits for all earlier stages" idiom: Run(Pip{Wait: done}); done = append(done, name)); a task's
+	// wait list of length k is SharedWait[:k] of a per-execution copy
+	SharedWait []string `json:"shared_wait_array,omitempty"`
+	Bound      int      `json:"bound"`
 }
 
 type obs struct {
@@ -125,6 +129,7 @@ func build(sp Spec, o *obs) func() {
 			}
 		}
 		var swg vsched.WaitGroup
+		sharedWait := append(make([]string, 0, len(sp.SharedWait)+2), sp.SharedWait...)
 		for _, t := range sp.Tasks {
 			t := t
 			lock := commservices.LockMap{}
@@ -145,7 +150,11 @@ func build(sp Spec, o *obs) func() {
 					return
 				}
 			}
-			pip := w.Pip(t.Name, body(t), t.Wait, lock, tscope)
+			wait := t.Wait
+			if sp.SharedWait != nil && len(t.Wait) > 0 && len(t.Wait) <= len(sp.SharedWait) && strings.Join(t.Wait, ",") == strings.Join(sp.SharedWait[:len(t.Wait)], ",") {
+				wait = sharedWait[:len(t.Wait)]
+			}
+			pip := w.Pip(t.Name, body(t), wait, lock, tscope)
 			if t.Sandbox != "" {
 				pip.Sandbox = t.Sandbox
 			}
@@ -453,6 +462,13 @@ func programs(thorough bool) []Spec {
 	l2.WLock, l2.RLock = "", "res"
 	ps = append(ps, Spec{Tasks: []TaskSpec{l1, l2}, Bound: b})
 	ps = append(ps, LockWaitPrograms(thorough)...)
+	// wait lists that are prefixes of one caller-owned array, not in sorted order (z before a)
+	// (a <- z keeps the program nearly sequential: only c and d may overlap)
+	sa, sz, sc, sd := t("a"), t("z", "a"), t("c", "z"), t("d", "z", "a")
+	sz.Yield = 1
+	sz.One, sa.One, sc.One, sd.One = true, true, true, true
+	sc.Sandbox, sd.Sandbox = "retok:c.sb", "retok:d.sb" // (cheap bodies: the two may overlap)
+	ps = append(ps, Spec{Tasks: []TaskSpec{sa, sz, sc, sd}, SharedWait: []string{"z", "a"}, Bound: 0, Split: true})
 	// first submissions racing on a scope that has no task manager yet
 	one := t("a")
 	one.One = true
